@@ -5,7 +5,7 @@
    budget being the number of storage calls after which the process dies (counted from the first
    call of Start, so deaths inside start-up recovery — also of an incarnation that is itself
    recovering from a death — are included); [run_history c store0 h] starts from the empty store. *)
-From Verif Require Import Common.Base C01.Model C01.Spec C01.Proofs1 C01.Proofs2 C01.Proofs3 C01.Proofs4 C01.Proofs5.
+From Verif Require Import Common.Base C01.Model C01.Spec C01.Proofs1 C01.Proofs2 C01.Proofs3 C01.Proofs4 C01.Proofs5 C01.Proofs6.
 From Coq Require Import Sorted.
 
 (* ---- codecs ---- *)
@@ -122,3 +122,30 @@ Theorem pq_fifo_single_incarnation : forall c st sc b,
   StronglySorted N.lt (read_idx (i_obs (incarnation c st sc b))).
 Proof. exact fifo_incarnation_l. Qed.
 Print Assumptions pq_fifo_single_incarnation.
+
+(* ---- third sentence, sender side: the retry sender's stop notification is STICKY and seen by every Send ----
+   (send_model: retry_sender.go Send as a function of the attempt results and of the moment Shutdown is
+   called — before Send, during an export attempt, during a back-off; any number of concurrent Sends see the
+   same stop).  Once Shutdown has been called, a Send starts at most one more attempt ... *)
+Theorem retry_at_most_one_attempt_after_stop : forall rs s tail n e k,
+  send_model rs (Some s) tail n = (e, k) -> rs <> [] -> k <= Nat.max s (S n).
+Proof. exact send_at_most_one_more. Qed.
+Print Assumptions retry_at_most_one_attempt_after_stop.
+
+(* ... it ends with the context error only if it ended before the shutdown, "no more retries" only if the
+   retry budget is exhausted, and never with a shutdown error when there was no shutdown ... *)
+Theorem retry_final_ends_are_genuine : forall rs stop tail n,
+  (forall s k, stop = Some s -> send_model rs stop tail n = (SendCtxDone, k) -> rs <> [] -> k < s) /\
+  (forall k, send_model rs stop tail n = (SendNoMoreRetries, k) -> tail = SendNoMoreRetries) /\
+  (stop = None -> tail <> SendStopped -> fst (send_model rs stop tail n) <> SendStopped).
+Proof. exact send_final_ends_genuine. Qed.
+Print Assumptions retry_final_ends_are_genuine.
+
+(* ... and a hand-off whose attempts all failed with retryable errors and that is overtaken by the shutdown
+   (at whatever moment: s <= attempts available) reaches the queue as a SHUTDOWN error — the outcome for which
+   the queue performs no storage call (pq_shutdown_keeps) and the request stays durable (pq_durable_or_final). *)
+Theorem retry_interrupted_by_shutdown_keeps : forall rs s tail n,
+  Forall (fun r => r = ARetryable) rs -> rs <> [] -> s <= n + length rs -> tail <> SendNoMoreRetries ->
+  outcome_of_send (fst (send_model rs (Some s) tail n)) = OShutdown.
+Proof. exact send_retryable_then_stop. Qed.
+Print Assumptions retry_interrupted_by_shutdown_keeps.
